@@ -99,7 +99,7 @@ theorem growth_from_1024_not_ok : growthOkFor 1024 131072 1 = false ∧
     the maximum and gains less than the read asks for (`hshort`) OVERWRITES unread bytes as soon
     as the descriptor holds that much: dropped = size + request - maximum > 0 -- in the relay these
     are bytes of a line that is within the 128 KiB of the domain. -/
-theorem short_growth_step_drops (b : PBuf) (hfull : b.f.q.length = b.f.size) (hpos : 0 < b.f.size)
+theorem short_growth_step_drops (b : PBuf) (hfull : b.f.q.length = b.f.size) (_hpos : 0 < b.f.size)
     (hmode : b.f.mode = .wrapMany) (hle : b.f.size ≤ b.f.maxsize) (hcap : b.grown.1 = b.f.maxsize)
     (hshort : b.f.maxsize < b.f.size + min b.f.size Gen.CBUF_CHUNK)
     (avail : Bytes) (hav : min b.f.size Gen.CBUF_CHUNK ≤ avail.length) (eof : Bool) :
@@ -290,6 +290,31 @@ theorem stderr_relayed_like_stdout (cfg : Cfg) (host t0host : Bytes) {sizeMeta :
   obtain ⟨b0, hb0⟩ := mkFifoBuf_some sizeMeta
   rw [(runStream_index_eq_fifo cfg host t0host 2 false (growthOk_pos hg) ha0 hb0 script).1]
   exact relay_only_own_stream cfg host t0host 2 false hg hb0 script hdom
+
+/-- pdcp / rpdcp.  `_rcp_thread` relays no stdout (the copy protocol owns that descriptor: properties C11/C12);
+    `_parallel_copy` relays the remote STDERR with the same `_handle_rcmd_stderr` and `_flush_output` -- for rpdcp
+    always, for pdcp when its client failed -- and then with the same guarantee: complete, in order, exactly once,
+    under the host's label, on pdsh's stderr only, whatever the fragmentation. -/
+theorem rcp_stderr_relayed (cfg : Cfg) (host t0host : Bytes) (popt : Bool) (rv : Int) (hbr : popt = true ∨ rv < 0)
+    {sizeMeta : Nat} (hg : growthOk sizeMeta = true) {a0 : Cbuf.Cbuf} (ha0 : mkIndexBuf sizeMeta = some a0)
+    (script : List Bytes) (h0 : ∀ b ∈ script.flatten, b ≠ 0)
+    (hl : ∀ l ∈ Spec.lines script.flatten, l.length ≤ 131072) (ht : (Spec.tail script.flatten).length ≤ 131072) :
+    written (parallelCopyStderr indexOps cfg host t0host popt rv a0 script) =
+      Spec.render (labelPrefix cfg.labels cfg.keep host) script.flatten ∧
+    ∀ e ∈ parallelCopyStderr indexOps cfg host t0host popt rv a0 script, e.stream = 2 := by
+  have hb : (popt = true ∨ rv < 0) := hbr
+  simp only [parallelCopyStderr, hb, ↓reduceIte]
+  exact stderr_relayed_like_stdout cfg host t0host hg ha0 script h0 hl ht
+
+/-- ... and a pdcp client that SUCCEEDS never reads the remote stderr: whatever the remote side wrote there is
+    not relayed (dsh.c's comment: "stderr is unlikely"; reading could block for ever).  Not a clause of C05 --
+    the property is about remote commands -- but said here rather than left implicit. -/
+theorem pdcp_success_reads_no_stderr {β : Type} (ops : BufOps β) (cfg : Cfg) (host t0host : Bytes) (rv : Int)
+    (hrv : 0 ≤ rv) (b : β) (script : List Bytes) :
+    parallelCopyStderr ops cfg host t0host false rv b script = [] := by
+  have h : ¬ (false = true ∨ rv < 0) := by simp; omega
+  unfold parallelCopyStderr
+  rw [if_neg h]
 
 theorem render_nil (s : Bytes) : Spec.render [] s = s := by
   have h := Spec.strip_render [] s
